@@ -209,9 +209,22 @@ func (x *Exec) nativeFunc(e *Env, callee *types.Func, n *ast.CallExpr) (Value, b
 		return ErrV{Nil: FalseT, Kind: IntC(int64(id)), Type: IntC(0), Off: IntC(0)}, true
 	case "fmt.Errorf":
 		return x.errorf(e, n), true
+	case "strconv.FormatUint", "strconv.FormatInt", "strconv.Itoa":
+		// decimal text of an integer (base 10 only): like fmt's %d
+		if key != "Itoa" {
+			if b, ok := e.toIntTerm(e.expr(n.Args[1])).Int64(); !ok || b != 10 {
+				return nil, false
+			}
+		}
+		return x.decimalString(e, e.toIntTerm(e.expr(n.Args[0])), "", ""), true
 	case "fmt.Sprintf", "fmt.Sprint":
 		if x.inGlobalInit > 0 {
 			return e.stringLit("", types.Typ[types.String]), true
+		}
+		if key == "Sprintf" {
+			if v, ok := x.sprintfDecimal(e, n); ok {
+				return v, true
+			}
 		}
 		return nil, false
 	case "errors.Is":
@@ -1067,4 +1080,57 @@ func (x *Exec) binaryMethod(e *Env, key string, n *ast.CallExpr) (Value, bool) {
 		t = Add(Mul(t, IntC(256)), b)
 	}
 	return Scalar{t, typ}, true
+}
+
+// sprintfDecimal: fmt.Sprintf with a constant format made of literal text and exactly one %d whose
+// argument is an integer: the result is prefix ++ digits ++ suffix, where digits is the decimal text of
+// the value: between 1 and 20 ASCII digits for a non-negative value (with a leading '-' allowed
+// otherwise); which digits is left to strconv.decarr/declen, an uninterpreted function of the value.
+func (x *Exec) sprintfDecimal(e *Env, n *ast.CallExpr) (Value, bool) {
+	if len(n.Args) != 2 {
+		return nil, false
+	}
+	fs, ok := e.expr(n.Args[0]).(SliceV)
+	if !ok {
+		return nil, false
+	}
+	format, ok := x.constString(e, fs)
+	if !ok || strings.Count(format, "%") != 1 || !strings.Contains(format, "%d") {
+		return nil, false
+	}
+	v, ok := e.expr(n.Args[1]).(Scalar)
+	if !ok {
+		return nil, false
+	}
+	vt := e.toIntTerm(v)
+	pre, suf := format[:strings.Index(format, "%d")], format[strings.Index(format, "%d")+2:]
+	return x.decimalString(e, vt, pre, suf), true
+}
+
+// decimalString: pre ++ decimal digits of vt ++ suf as a fresh string.
+func (x *Exec) decimalString(e *Env, vt *Term, pre, suf string) Value {
+	x.trusted["decimal formatting (fmt %d, strconv.FormatUint/FormatInt/Itoa base 10): literal text around 1 to 20 ASCII digits, a leading '-' for negative values"] = true
+	a := x.alloc()
+	es := e.R().sortOf(byteT)
+	arr := x.fresh("sprintf", ArrS(es))
+	e.st.mem[a] = ArrayV{T: arr, N: -1, Elem: byteT}
+	e.st.assume(x.elemRangeAxiom(e, arr, byteT))
+	dl := App("strconv.declen", IntS, vt)
+	e.st.assume(And(Le(IntC(1), dl), Le(dl, IntC(20))))
+	byteOf := func(t *Term) *Term { return e.toIntTerm(Scalar{t, byteT}) }
+	for i := 0; i < len(pre); i++ {
+		e.st.assume(Eq(byteOf(Select(arr, IntC(int64(i)))), IntC(int64(pre[i]))))
+	}
+	k := x.fresh("k", IntS)
+	start := IntC(int64(len(pre)))
+	isDigit := And(Le(IntC('0'), byteOf(Select(arr, k))), Le(byteOf(Select(arr, k)), IntC('9')))
+	first := byteOf(Select(arr, start))
+	// every position of the digit field is a digit, except that the first may be '-' for a negative value
+	e.st.assume(Forall([]*Term{k}, Implies(And(Lt(start, k), Lt(k, Add(start, dl))), isDigit)))
+	e.st.assume(Or(And(Le(IntC('0'), first), Le(first, IntC('9'))), And(Lt(vt, IntC(0)), Eq(first, IntC('-')))))
+	for i := 0; i < len(suf); i++ {
+		e.st.assume(Eq(byteOf(Select(arr, Add(Add(start, dl), IntC(int64(i))))), IntC(int64(suf[i]))))
+	}
+	ln := Add(IntC(int64(len(pre)+len(suf))), dl)
+	return SliceV{Alloc: a, Off: IntC(0), Len: ln, Cap: ln, Elem: byteT, IsString: true, Nil: FalseT, Typ: types.Typ[types.String]}
 }
